@@ -403,7 +403,10 @@ def gen_twin(seed, tier):
         elif k == "rtw":
             tw = []
             for sh in sorted(ch.sample(W, ("msh", i), range(3), ch.randint(W, ("mn", i), 1, 2))):
-                tests = [[ch.pick(W, ("toff", i, sh), [0, 5, 100]), ch.pick(W, ("tlen", i, sh), [0, 4, 50]), ch.chance(W, ("tmatch", i, sh), 0.75)]] if ch.chance(W, ("hastest", i, sh), 0.5) else []
+                # third field: True = specimen equals the range, False = one byte too many, "short" = specimen shorter than
+                # the tested range (publishers test (0, 1, b"") for "this share must not exist yet")
+                tests = [[ch.pick(W, ("toff", i, sh), [0, 0, 5, 100]), ch.pick(W, ("tlen", i, sh), [0, 1, 4, 50]),
+                          ch.pick(W, ("tmatch", i, sh), [True, True, True, True, False, "short", "short"])]] if ch.chance(W, ("hastest", i, sh), 0.55) else []
                 writes = [[ch.pick(W, ("woff", i, sh, j), [0, 0, 3, 50, 100, 500]), ch.pick(W, ("wlen", i, sh, j), [1, 10, 100]), ch.randint(W, ("wpat", i, sh, j), 1, 1 << 30)]
                           for j in range(ch.pick(W, ("nw", i, sh), [0, 1, 1, 2]))]
                 tw.append([sh, tests, writes, ch.pick(W, ("nl", i, sh), [None, None, None, 0, 20, 200])])
@@ -591,7 +594,10 @@ def exec_twin(case):
                     cur = mutable_model.get((si_i, sh), b"")
                     tv_h, tv_d = [], []
                     for (toff, tlen, match) in tests:
-                        spec = cur[toff:toff + tlen] if match else cur[toff:toff + tlen] + b"!"
+                        if match == "short":
+                            spec = cur[toff:toff + tlen][:tlen // 2]
+                        else:
+                            spec = cur[toff:toff + tlen] if match else cur[toff:toff + tlen] + b"!"
                         tv_h.append(TestVector(offset=toff, size=tlen, specimen=spec))
                         tv_d.append((toff, tlen, b"eq", spec))
                     wv_h = [WriteVector(offset=o, data=pat_bytes(p, l)) for (o, l, p) in writes]
